@@ -78,7 +78,7 @@ Definition first_or_self (e : node) : node :=
 
 Definition parse_html_text (which : String.string) (value : node) (s : st) : node * st :=
   match value with
-  | Str _ _ => (value, s)                       (* Expr::Lit(lit.clone()): raw kept *)
+  | Str v _ => (mk_str v, s)                    (* the value only: the raw JSX text is dropped *)
   | JExprC JEmpty => (Bool true, set_diags (diags s ++ [s_ "You have to use JSX Expression inside your `" ++ s_ which ++ s_ "`."]) s)
   | JExprC e => (first_or_self e, s)
   | _ => (Bool true, set_diags (diags s ++ [s_ "You have to use JSX Expression inside your `" ++ s_ which ++ s_ "`."]) s)
